@@ -173,7 +173,7 @@ def orientation_rule(model: Model, res, floor_sites: int = 1) -> Dict[str, int]:
             g = _callee(model, f, call)
             uses = _component_uses(f.node, names, whole, st)
             forwarded_only = all(u == "return" for u in uses)
-            ok = forwarded_only or _reads_orientation(f.node)
+            ok = forwarded_only or _reads_orientation(f.node) or (whole is not None and _handed_to_converter(model, f, whole, 0))
             res.ob("R-ORIENT", f"{f.qualname}: (base, quote) pair from {g.qualname} is "
                                f"{'forwarded' if forwarded_only else 'taken apart'}"
                                f"{'' if forwarded_only else (' under an orientation test' if ok else ' without consulting the orientation')}",
@@ -185,6 +185,43 @@ def orientation_rule(model: Model, res, floor_sites: int = 1) -> Dict[str, int]:
                          f"base_token / is_token0_quote: which component is which token depends on the quote token chosen for the "
                          f"pool, so for one of the two choices the amounts are swapped")
     return {"producers": len(prod), "sites": n_sites}
+
+
+def _handed_to_converter(model: Model, f, whole: str, depth: int) -> bool:
+    """The undivided pair is only passed on (argument of a resolvable method of the same class, or returned): every
+    receiving helper reads the orientation itself or hands the pair on the same way."""
+    if depth > 3:
+        return False
+    parents = {}
+    for p in ast.walk(f.node):
+        for ch in ast.iter_child_nodes(p):
+            parents[id(ch)] = p
+    any_use = False
+    for n in ast.walk(f.node):
+        if not (isinstance(n, ast.Name) and isinstance(n.ctx, ast.Load) and n.id == whole):
+            continue
+        any_use = True
+        p = parents.get(id(n))
+        if isinstance(p, ast.Return):
+            continue
+        if isinstance(p, ast.Call) and n in p.args and isinstance(p.func, ast.Attribute) and isinstance(p.func.value, ast.Name) \
+                and p.func.value.id == "self" and f.cls is not None:
+            g = None
+            for c in model.mro(f.cls):
+                if p.func.attr in c.methods:
+                    g = c.methods[p.func.attr]
+                    break
+            if g is None:
+                return False
+            idx = p.args.index(n)
+            params = [a.arg for a in g.node.args.args if a.arg not in ("self", "cls")]
+            if idx >= len(params):
+                return False
+            if _reads_orientation(g.node) or _handed_to_converter(model, g, params[idx], depth + 1):
+                continue
+            return False
+        return False
+    return any_use
 
 
 def _reads_orientation(fnode) -> bool:
